@@ -149,3 +149,6 @@ def run_shard(spec):
 
 def replay(doc):
     return pool_checks.replay(__import__(MOD, fromlist=["x"]), doc)
+
+
+RULE += ' Also (waves 8-9): workers held up for 1.3 s (2.4 s) at the k-th execution of every statement of their loop followed by a second call, huge / infinite chunk sizes, inputs whose __length_hint__ over-estimates, iterables that are callable as well, a generator used by two threads one after the other.'
